@@ -662,6 +662,43 @@ fn scalars(ctx: &mut Ctx) {
         ctx.check_tol("jacobian", &shape, "j[(1,0)]", j[(1, 0)], dd(tx), tol);
         ctx.check_tol("jacobian", &shape, "j[(1,1)]", j[(1, 1)], dd(ty), tol);
     }
+    // closures written with nalgebra's vector API (norm, normalize, dot): these run through the
+    // ComplexField / RealField implementations of the dual number types
+    {
+        let xv = SVector::<f64, 3>::new(1.5, -2.0, 0.5);
+        let r = (1.5f64 * 1.5 + 4.0 + 0.25).sqrt();
+        let tol = 64.0 * 1.1e-16 * 8.0;
+        let dd = |v: f64| DD::f(v);
+        let (f, g) = gradient(|v: SVector<DualSVec64<3>, 3>| v.norm(), xv);
+        ctx.check_tol("gradient", "nalgebra norm", "value", f, dd(r), tol);
+        for i in 0..3 {
+            ctx.check_tol("gradient", "nalgebra norm", &format!("g[{i}]"), g[i], dd(xv[i] / r), tol);
+        }
+        let (_, g) = gradient(|v: DVector<DualDVec64>| v.norm_squared(), DVector::from_vec(vec![1.5, -2.0, 0.5]));
+        for i in 0..3 {
+            ctx.check_tol("gradient", "nalgebra norm_squared dynamic", &format!("g[{i}]"), g[i], dd(2.0 * xv[i]), tol);
+        }
+        let (_, j) = jacobian(|v: SVector<DualSVec64<3>, 3>| v.normalize(), xv);
+        for i in 0..3 {
+            for k in 0..3 {
+                let want = (if i == k { 1.0 } else { 0.0 }) / r - xv[i] * xv[k] / (r * r * r);
+                ctx.check_tol("jacobian", "nalgebra normalize", &format!("j[({i},{k})]"), j[(i, k)], dd(want), tol);
+            }
+        }
+        let (_, g, h) = hessian(|v: SVector<Dual2SVec64<3>, 3>| v.norm(), xv);
+        for i in 0..3 {
+            ctx.check_tol("hessian", "nalgebra norm", &format!("g[{i}]"), g[i], dd(xv[i] / r), tol);
+            for k in 0..3 {
+                let want = (if i == k { 1.0 } else { 0.0 }) / r - xv[i] * xv[k] / (r * r * r);
+                ctx.check_tol("hessian", "nalgebra norm", &format!("h[({i},{k})]"), h[(i, k)], dd(want), tol);
+            }
+        }
+        let w = SVector::<f64, 3>::new(0.25, 3.0, -1.0);
+        let (_, g) = gradient(|v: SVector<DualSVec64<3>, 3>| v.dot(&w.map(DualSVec64::<3>::from_re)), xv);
+        for i in 0..3 {
+            ctx.check_tol("gradient", "nalgebra dot", &format!("g[{i}]"), g[i], dd(w[i]), tol);
+        }
+    }
     // non-polynomial integrands against the Taylor coefficients of the reference
     use Op::*;
     let funs: [(Op, &[f64]); 12] = [
@@ -743,7 +780,7 @@ fn main() {
         mode: cli.mode,
         seed: cli.seed,
         start,
-        rule: "the twenty public drivers x input lengths n = 0..6 and output lengths m = 1..6 (static where the type system allows: gradient/hessian n = 1..6, jacobian all (m,n) in 1..6 x 1..6, partial_hessian (m,n) <= 4 and (6,1),(6,6),(1,6); dynamic for all lengths incl. 0) x two integer points x asymmetric integer polynomials containing every monomial of degree <= 3 with pairwise distinct coefficients (so every partial up to order 3 is non-zero and no two are equal) and, for every second function, that polynomial divided by a linear form equal to 2 at the point (quotient rules; all values stay small dyadic rationals); all n^3 index triples of third_partial_derivative_vec for n <= 5; try_ variants with unit-struct, String and integer errors; constant / partially constant functions (absent parts); nested use T = Dual64 (gradient, first/second/third_derivative, second_partial_derivative: the eps parts carry one more derivative order); non-polynomial integrands against reference Taylor coefficients; polar coordinates (sqrt, atan2 in both branches and all quadrants) through gradient, hessian, jacobian, partial_hessian and second_partial_derivative. Non-trivial = a derivative entry whose exact value is neither 0 nor 1.".into(),
+        rule: "the twenty public drivers x input lengths n = 0..6 and output lengths m = 1..6 (static where the type system allows: gradient/hessian n = 1..6, jacobian all (m,n) in 1..6 x 1..6, partial_hessian (m,n) <= 4 and (6,1),(6,6),(1,6); dynamic for all lengths incl. 0) x two integer points x asymmetric integer polynomials containing every monomial of degree <= 3 with pairwise distinct coefficients (so every partial up to order 3 is non-zero and no two are equal) and, for every second function, that polynomial divided by a linear form equal to 2 at the point (quotient rules; all values stay small dyadic rationals); all n^3 index triples of third_partial_derivative_vec for n <= 5; try_ variants with unit-struct, String and integer errors; constant / partially constant functions (absent parts); nested use T = Dual64 (gradient, first/second/third_derivative, second_partial_derivative: the eps parts carry one more derivative order); non-polynomial integrands against reference Taylor coefficients; closures written with nalgebra's vector API (norm, norm_squared, normalize, dot); polar coordinates (sqrt, atan2 in both branches and all quadrants) through gradient, hessian, jacobian, partial_hessian and second_partial_derivative. Non-trivial = a derivative entry whose exact value is neither 0 nor 1.".into(),
         assumptions: vec!["expected values by symbolic differentiation of the coefficient tables in integer arithmetic (Leibniz rule for the quotient by the linear form); all values are small integers or dyadic rationals, so equality is exact".into()],
         extra: json!({"oracle": "exact integer partial derivatives; Err identity; Ok results bit-equal to the infallible variants"}),
         exhaustive: true,
